@@ -1,0 +1,13 @@
+//go:build verif
+
+// Round 4, area B: dirlock.New (the lock object nsqd.New stores in NSQD.dl). Checked by nsqvc. Comment-only file.
+
+package dirlock
+
+// A fresh lock object for that directory; nothing is opened or locked yet.
+//@ func New(dir string) *DirLock
+//@   props C06
+//@   nochan
+//@   ensures[fresh-for-dir] result != nil && fresh(result) && result.dir == dir && result.f == nil
+//@   ensures[nothing-locked-yet] gDirOpens == old(gDirOpens) && gFlocks == old(gFlocks)
+//@   modifies
